@@ -12,6 +12,12 @@ import shapely
 import xarray
 
 import emsarray  # noqa: F401
+
+try:        # the work files are opened with lock=False: read them from one thread (HDF5 is not thread safe, a threaded read can crash the process)
+    import dask
+    dask.config.set(scheduler='synchronous')
+except Exception:       # pragma: no cover
+    pass
 from harness import datasets
 from harness.common import Failure, must
 
